@@ -25,6 +25,7 @@ import RattrModel.Spec.ExitCode
 import RattrModel.Generated.C16
 import RattrModel.DiagSites
 import RattrModel.MainRun
+import RattrModel.MainCache
 import RattrModel.Generated.C15
 import RattrProofs.Props.C15
 
@@ -793,6 +794,248 @@ theorem C16_full_out_holds : C16_full_out :=
      ⟨a, b, c, C16_errors_same cfg cfg' (MainRun.events st) h⟩,
    fun _ _ st cfg w₁ w₂ h₁ t₁ h₂ t₂ hw => C16_subsequence cfg w₁ w₂ h₁ t₁ h₂ t₂ (MainRun.events st) hw,
    fun mode target st cfg p h => C16_out_paths mode target cfg st p h⟩
+
+/-! ### A cache file in play: `-C file`, with and without `-r` (`MainCache`)
+
+`MainCache.mainCache s cfg evs` is `main` when a cache file is named: `s` = (`-r`?, what the gate finds
+at the cache path, can the file be written), `evs` = what analysis + simplification would emit. -/
+
+open MainCache in
+/-- Tie A: the level-function calls of `main`, `write_cache_file` and the gate are the ones the model
+has — one positional argument each (the message): no culprit, no explicit weight. -/
+theorem C16_tieA_cache_shape : Generated.C16.cacheGateShape = MainCache.cacheGateShape := by decide
+
+/-- The phases of `main` in which NO file is entered and no AST node / symbol exists to point at. -/
+def filelessClass : DiagSites.SiteClass → Bool
+  | .cache | .gate | .configuration => true
+  | _ => false
+
+/-- Tie A: no diagnostic call of the file-less phases (argument validation, cache gate, threshold gate,
+cache write) passes a culprit (re-extracted from the source on every run). A culprit there could only
+be an object the renderer cannot locate — see `C16_cex_foreign_culprit`. -/
+theorem C16_tieA_fileless_no_culprit :
+    ∀ x ∈ Generated.C16.siteCulprits, (DiagSites.classOf x.1).map filelessClass = some true → x.2 = "" := by
+  have h : (Generated.C16.siteCulprits.all fun x =>
+      !((DiagSites.classOf x.1).map filelessClass == some true) || x.2 == "") = true := by
+    set_option maxRecDepth 16384 in decide
+  intro x hx hc
+  have := (List.all_eq_true.mp h) x hx
+  simpa [hc] using this
+
+theorem info_out (cfg : Cfg) (s : State) (l : Where) (b : Nat) :
+    (info cfg s l b).state = bump s l b ∧ (info cfg s l b).exited = false
+    ∧ (info cfg s l b).printed.filter isErrLine = [] := by
+  unfold info
+  by_cases h1 : doNotShow cfg = true
+  · simp [h1]
+  · simp only [h1]
+    by_cases h2 : (if l = Where.target then Flag.targetLow else Flag.inheritedLow) ∈ cfg.warnLevel.flags
+    · simp [h2, isErrLine]
+    · simp [h2]
+
+/-- The one line of the hit branch / of the gate: printed at `-w all` only. -/
+theorem info_none_printed (cfg : Cfg) (s : State) (b : Nat) :
+    (info cfg s .none b).printed = if cfg.warnLevel = .all then [⟨.info, .none⟩] else [] := by
+  unfold info
+  cases hw : cfg.warnLevel <;> simp [doNotShow, hw, WarnLevel.flags]
+
+/-- A hit: exit 0, nothing on stdout, nothing booked, nothing written — at every verbosity; its single
+line is printed at `-w all` only. -/
+theorem C16_cache_hit (w : Bool) (cfg : Cfg) (evs : List Event) :
+    (MainCache.mainCache ⟨false, .fresh, w⟩ cfg evs).diag.exit = 0
+    ∧ (MainCache.mainCache ⟨false, .fresh, w⟩ cfg evs).diag.output = false
+    ∧ (MainCache.mainCache ⟨false, .fresh, w⟩ cfg evs).diag.state = State.init
+    ∧ (MainCache.mainCache ⟨false, .fresh, w⟩ cfg evs).cache = .unchanged
+    ∧ (MainCache.mainCache ⟨false, .fresh, w⟩ cfg evs).diag.printed
+        = if cfg.warnLevel = .all then [⟨.info, .none⟩] else [] := by
+  refine ⟨rfl, rfl, ?_, rfl, ?_⟩
+  · exact (info_out cfg State.init .none 0).1
+  · exact info_none_printed cfg State.init 0
+
+/-- What `finish` (the write, or its failure) adds to the run so far. -/
+theorem finish_spec (s : MainCache.Setup) (r : Diag.Result) :
+    (MainCache.finish s r).diag.state = r.state
+    ∧ (MainCache.finish s r).diag.output = r.output
+    ∧ (MainCache.finish s r).diag.exit = (if r.output && !s.writable then 1 else r.exit)
+    ∧ (MainCache.finish s r).diag.printed = r.printed ++ (if r.output && !s.writable then [⟨.fatal, .none⟩] else [])
+    ∧ (MainCache.finish s r).cache = (if r.output && s.writable then .written else MainCache.untouched s) := by
+  unfold MainCache.finish
+  cases ho : r.output <;> cases hw : s.writable <;> simp [Diag.fatal, bump, ho]
+
+/-- **C16 with a cache file**: buckets, exit status, "the selected output is on stdout" and what has
+happened to the cache file do not depend on -w / -H / -T — whatever is at the cache path, with and
+without `-r`, writable or not, for every event list and strict / threshold setting. -/
+theorem C16_cache_indep (s : MainCache.Setup) (cfg cfg' : Cfg) (evs : List Event) (h : SameAnalysisOptions cfg cfg') :
+    (MainCache.mainCache s cfg evs).diag.state = (MainCache.mainCache s cfg' evs).diag.state
+    ∧ (MainCache.mainCache s cfg evs).diag.exit = (MainCache.mainCache s cfg' evs).diag.exit
+    ∧ (MainCache.mainCache s cfg evs).diag.output = (MainCache.mainCache s cfg' evs).diag.output
+    ∧ (MainCache.mainCache s cfg evs).cache = (MainCache.mainCache s cfg' evs).cache := by
+  unfold MainCache.mainCache
+  split
+  · refine ⟨?_, rfl, rfl, rfl⟩
+    simp only [MainCache.hit]
+    rw [(info_out cfg State.init .none 0).1, (info_out cfg' State.init .none 0).1]
+  · obtain ⟨a, b, c⟩ := C16_state_indep cfg cfg' (MainCache.pre s ++ evs) h
+    obtain ⟨f1, f2, f3, _, f5⟩ := finish_spec s (run cfg (MainCache.pre s ++ evs))
+    obtain ⟨g1, g2, g3, _, g5⟩ := finish_spec s (run cfg' (MainCache.pre s ++ evs))
+    simp only [MainCache.miss]
+    rw [f1, f2, f3, f5, g1, g2, g3, g5, a, b, c]
+    exact ⟨rfl, rfl, rfl, rfl⟩
+
+/-- … the error / fatal lines are the same at every verbosity (the unwritable cache path's fatal included). -/
+theorem C16_cache_errors_same (s : MainCache.Setup) (cfg cfg' : Cfg) (evs : List Event) (h : SameAnalysisOptions cfg cfg') :
+    (MainCache.mainCache s cfg evs).diag.printed.filter isErrLine
+      = (MainCache.mainCache s cfg' evs).diag.printed.filter isErrLine := by
+  unfold MainCache.mainCache
+  split
+  · simp only [MainCache.hit]
+    rw [(info_out cfg State.init .none 0).2.2, (info_out cfg' State.init .none 0).2.2]
+  · obtain ⟨_, _, c⟩ := C16_state_indep cfg cfg' (MainCache.pre s ++ evs) h
+    have e := C16_errors_same cfg cfg' (MainCache.pre s ++ evs) h
+    simp only [MainCache.miss]
+    rw [(finish_spec s (run cfg (MainCache.pre s ++ evs))).2.2.2.1, (finish_spec s (run cfg' (MainCache.pre s ++ evs))).2.2.2.1,
+      List.filter_append, List.filter_append, e, c]
+
+/-- … and lower verbosity prints a subsequence of what higher verbosity prints. -/
+theorem C16_cache_subsequence (s : MainCache.Setup) (cfg : Cfg) (w₁ w₂ : WarnLevel) (h₁ t₁ h₂ t₂ : Bool) (evs : List Event)
+    (hw : w₁.rank ≤ w₂.rank) :
+    (MainCache.mainCache s (withVerbosity cfg w₁ h₁ t₁) evs).diag.printed.Sublist
+      (MainCache.mainCache s (withVerbosity cfg w₂ h₂ t₂) evs).diag.printed := by
+  unfold MainCache.mainCache
+  split
+  · simp only [MainCache.hit, info_none_printed, withVerbosity]
+    cases w₁ <;> cases w₂ <;> simp [WarnLevel.rank] at hw ⊢
+  · have c := (C16_state_indep (withVerbosity cfg w₁ h₁ t₁) (withVerbosity cfg w₂ h₂ t₂)
+      (MainCache.pre s ++ evs) ⟨rfl, rfl⟩).2.2
+    have e := C16_subsequence cfg w₁ w₂ h₁ t₁ h₂ t₂ (MainCache.pre s ++ evs) hw
+    simp only [MainCache.miss]
+    rw [(finish_spec s _).2.2.2.1, (finish_spec s _).2.2.2.1, c]
+    exact List.Sublist.append e (List.Sublist.refl _)
+
+/-- A cache file that cannot be read back is treated exactly as a missing one — at every verbosity
+(the whole result: lines, buckets, exit, stdout flag, cache file). -/
+theorem C16_cache_damaged_as_absent (r w : Bool) (cfg : Cfg) (evs : List Event) :
+    MainCache.mainCache ⟨r, .malformed, w⟩ cfg evs = MainCache.mainCache ⟨r, .absent, w⟩ cfg evs := by
+  cases r <;> rfl
+
+/-- `-r`: the gate is not consulted — what was at the cache path does not matter. -/
+theorem C16_cache_refresh_ignores_gate (g g' : MainCache.Gate) (w : Bool) (cfg : Cfg) (evs : List Event) :
+    MainCache.mainCache ⟨true, g, w⟩ cfg evs = MainCache.mainCache ⟨true, g', w⟩ cfg evs := rfl
+
+/-- With `-r`, or when the document at the cache path is out of date, the diagnostics of the run are
+those of the run without a cache file (`Diag.run` on the same events) as long as the file can be written. -/
+theorem C16_cache_miss_is_plain (s : MainCache.Setup) (cfg : Cfg) (evs : List Event)
+    (hs : s.refresh = true ∨ s.gate = .stale) (hw : s.writable = true) :
+    (MainCache.mainCache s cfg evs).diag = run cfg evs := by
+  have hd : ∀ r : Diag.Result, (MainCache.finish s r).diag = r := by
+    intro r
+    unfold MainCache.finish
+    cases ho : r.output <;> simp [hw]
+  have hp : MainCache.pre s = [] := by
+    unfold MainCache.pre
+    rcases hs with hs | hs
+    · simp [hs]
+    · simp [hs, MainCache.gateEvents]
+  have hu : (!s.refresh && s.gate.upToDate) = false := by
+    rcases hs with hs | hs
+    · simp [hs]
+    · simp [hs, MainCache.Gate.upToDate]
+  simp only [MainCache.mainCache, hu, MainCache.miss, hp, List.nil_append]
+  exact hd _
+
+/-- The document `write_cache_file` writes names the target as it was spelled, whatever the verbosity. -/
+theorem C16_cache_written_filepath (s : MainCache.Setup) (mode : MainRun.OutMode) (target : Str) (cfg : Cfg)
+    (st : MainRun.Staged) (d : MainRun.CacheDoc)
+    (h : (MainCache.mainCacheOut s mode target cfg st).written = some d) : d.filepath = target := by
+  simp only [MainCache.mainCacheOut] at h
+  split at h
+  · cases hd : st.doc <;> simp [hd] at h
+    subst h; rfl
+  · cases h
+
+/-- … and stdout, the written document and the fate of the cache file are the same at every verbosity. -/
+theorem C16_cache_out_indep (s : MainCache.Setup) (mode : MainRun.OutMode) (target : Str) (cfg cfg' : Cfg)
+    (st : MainRun.Staged) (h : SameAnalysisOptions cfg cfg') :
+    (MainCache.mainCacheOut s mode target cfg st).stdout = (MainCache.mainCacheOut s mode target cfg' st).stdout
+    ∧ (MainCache.mainCacheOut s mode target cfg st).written = (MainCache.mainCacheOut s mode target cfg' st).written
+    ∧ (MainCache.mainCacheOut s mode target cfg st).cache = (MainCache.mainCacheOut s mode target cfg' st).cache
+    ∧ (MainCache.mainCacheOut s mode target cfg st).diag.exit = (MainCache.mainCacheOut s mode target cfg' st).diag.exit := by
+  obtain ⟨a, b, c, d⟩ := C16_cache_indep s cfg cfg' (MainRun.events st) h
+  simp only [MainCache.mainCacheOut, a, b, c, d, h.2]
+  exact ⟨trivial, trivial, trivial, trivial⟩
+
+/-! #### culprits: the one way a diagnostic CALL can couple outcome and verbosity -/
+
+/-- A culprit the renderer cannot locate turns exactly the PRINTED lines into a traceback. -/
+theorem C16_foreign_culprit_crashes_iff_printed (cfg : Cfg) (s : State) (e : Event) :
+    MainCache.emitC cfg s ⟨e, .foreign⟩ = none ↔ (emit cfg s e).printed ≠ [] := by
+  simp [MainCache.emitC, MainCache.Culprit.renders]
+
+/-- With culprits the renderer can locate (none, an AST node, a symbol) the run is `Diag.runEvents`:
+nothing of the rendering feeds back into the outcome. -/
+theorem C16_culprits_render (cfg : Cfg) (evs : List MainCache.CEvent)
+    (h : ∀ e ∈ evs, e.culprit.renders = true) (s : State) :
+    MainCache.runEventsC cfg s evs = some (runEvents cfg s (evs.map (·.ev))) := by
+  induction evs generalizing s with
+  | nil => rfl
+  | cons e es ih =>
+    have he : e.culprit.renders = true := h e (List.mem_cons_self ..)
+    have hes : ∀ x ∈ es, x.culprit.renders = true := fun x hx => h x (List.mem_cons_of_mem _ hx)
+    simp only [MainCache.runEventsC, MainCache.emitC, he, Bool.or_true, if_true, List.map_cons, runEvents]
+    split
+    · rfl
+    · rw [ih hes]
+
+/-- Defect class (not in the code: Tie A `C16_tieA_fileless_no_culprit`): were the gate's "malformed"
+diagnostic handed the exception as its culprit, the run would end in a traceback at `-w all` and be
+fine at every other level — outcome depending on the verbosity. (test by evaluation) -/
+theorem C16_cex_foreign_culprit :
+    MainCache.runEventsC ⟨false, 0, .all, false, false⟩ State.init (MainCache.gateEventsC .foreign .malformed) = none
+    ∧ MainCache.runEventsC ⟨false, 0, .default, false, false⟩ State.init (MainCache.gateEventsC .foreign .malformed)
+        = some ⟨State.init, [], false⟩
+    ∧ MainCache.runEventsC ⟨false, 0, .local_, false, false⟩ State.init (MainCache.gateEventsC .foreign .malformed)
+        = some ⟨State.init, [], false⟩
+    ∧ MainCache.runEventsC ⟨false, 0, .none, false, false⟩ State.init (MainCache.gateEventsC .foreign .malformed)
+        = some ⟨State.init, [], false⟩
+    ∧ MainCache.runEventsC ⟨false, 0, .all, false, false⟩ State.init (MainCache.gateEventsC .none .malformed)
+        = some ⟨State.init, [⟨.info, .none⟩], false⟩ := by
+  decide
+
+/-- The property with a cache file in play, for the model. -/
+def C16_full_cache : Prop :=
+  (∀ (s : MainCache.Setup) (cfg cfg' : Cfg) (evs : List Event), SameAnalysisOptions cfg cfg' →
+      (MainCache.mainCache s cfg evs).diag.state = (MainCache.mainCache s cfg' evs).diag.state
+      ∧ (MainCache.mainCache s cfg evs).diag.exit = (MainCache.mainCache s cfg' evs).diag.exit
+      ∧ (MainCache.mainCache s cfg evs).diag.output = (MainCache.mainCache s cfg' evs).diag.output
+      ∧ (MainCache.mainCache s cfg evs).cache = (MainCache.mainCache s cfg' evs).cache
+      ∧ (MainCache.mainCache s cfg evs).diag.printed.filter isErrLine
+          = (MainCache.mainCache s cfg' evs).diag.printed.filter isErrLine)
+  ∧ (∀ (s : MainCache.Setup) (cfg : Cfg) (w₁ w₂ : WarnLevel) (h₁ t₁ h₂ t₂ : Bool) (evs : List Event),
+      w₁.rank ≤ w₂.rank →
+      (MainCache.mainCache s (withVerbosity cfg w₁ h₁ t₁) evs).diag.printed.Sublist
+        (MainCache.mainCache s (withVerbosity cfg w₂ h₂ t₂) evs).diag.printed)
+
+theorem C16_full_cache_holds : C16_full_cache :=
+  ⟨fun s cfg cfg' evs h =>
+     let ⟨a, b, c, d⟩ := C16_cache_indep s cfg cfg' evs h
+     ⟨a, b, c, d, C16_cache_errors_same s cfg cfg' evs h⟩,
+   C16_cache_subsequence⟩
+
+/-- non-vacuity (tests by evaluation): a malformed cache file, three diagnostics, `--threshold 5`;
+an unwritable cache path; a hit. -/
+example : (MainCache.mainCache ⟨false, .malformed, true⟩ ⟨false, 5, .all, true, false⟩
+      [⟨.warning, 1, .target⟩, ⟨.error, 5, .import_⟩]).diag.printed = [⟨.info, .none⟩, ⟨.warning, .target⟩, ⟨.error, .import_⟩]
+    ∧ (MainCache.mainCache ⟨false, .malformed, true⟩ ⟨false, 5, .none, false, true⟩
+      [⟨.warning, 1, .target⟩, ⟨.error, 5, .import_⟩]).cache = .written
+    ∧ (MainCache.mainCache ⟨false, .malformed, true⟩ ⟨false, 5, .none, false, true⟩
+      [⟨.warning, 1, .target⟩, ⟨.error, 5, .target⟩]).cache = .unchanged
+    ∧ (MainCache.mainCache ⟨true, .fresh, true⟩ ⟨false, 5, .none, false, true⟩
+      [⟨.warning, 1, .target⟩, ⟨.error, 5, .target⟩]).cache = .removed
+    ∧ (MainCache.mainCache ⟨false, .absent, false⟩ ⟨false, 0, .none, false, false⟩ [⟨.warning, 1, .target⟩]).diag
+        = ⟨⟨1, 0, 0⟩, [⟨.fatal, .none⟩], 1, true⟩
+    ∧ (MainCache.mainCache ⟨false, .fresh, true⟩ ⟨true, 0, .all, false, false⟩ [⟨.error, 5, .target⟩]).diag
+        = ⟨State.init, [⟨.info, .none⟩], 0, false⟩ := by
+  decide
 
 /-! ### Non-vacuity (tests by evaluation, labelled as such) -/
 
